@@ -32,15 +32,32 @@ def calls_in_func(func: FuncInfo, name: Optional[str] = None) -> List[ast.Call]:
     return out
 
 
+def effective_funcs(prog: Program) -> List[FuncInfo]:
+    """The functions the rules look at: the analysis view of every top-level function / method that is not a helper inlined at all its call sites, and the local
+    functions and lambdas OF THAT VIEW (a view re-creates its nested definitions: the ones of the source function it was made from are not looked at a second time)."""
+    cached = getattr(prog, '_effective_funcs', None)
+    if cached is not None:
+        return cached
+    sub = subsumed_helpers(prog) if getattr(prog, 'inliner', None) is not None else set()
+    out: List[FuncInfo] = []
+
+    def add(f: FuncInfo) -> None:
+        out.append(f)
+        for g in list(f.nested.values()) + list(f.lambdas):
+            add(g)
+    for f in prog.all_funcs():
+        if f.parent is not None or id(f.node) in sub:
+            continue
+        add(prog.view(f) if getattr(prog, 'inliner', None) is not None else f)
+    prog._effective_funcs = out  # type: ignore[attr-defined]
+    return out
+
+
 def call_sites(prog: Program, name: str) -> List[Tuple[FuncInfo, ast.Call]]:
     """Every call of ``name`` -- over the helper-inlined views: a call made inside a private helper that is inlined at all its call sites is a
     call of each of its callers, not of the helper."""
     out = []
-    sub = subsumed_helpers(prog) if getattr(prog, 'inliner', None) is not None else set()
-    for f in prog.all_funcs():
-        if id(f.node) in sub:
-            continue
-        v = prog.view(f) if getattr(prog, 'inliner', None) is not None else f
+    for v in effective_funcs(prog):
         for c in calls_in_func(v, name):
             out.append((v, c))
     return out
@@ -93,12 +110,8 @@ def subsumed_helpers(prog: Program) -> Set[int]:
 def effective_writers(prog: Program, attr: str) -> List[Tuple[FuncInfo, ast.AST]]:
     """attr_writers over the helper-inlined views: a store made inside a private helper that is inlined at all its call
     sites is reported in (the view of) each caller, not in the helper."""
-    sub = subsumed_helpers(prog)
     out = []
-    for f in prog.all_funcs():
-        if id(f.node) in sub:
-            continue
-        v = prog.view(f)
+    for v in effective_funcs(prog):
         for n in body_walk(v):
             if isinstance(n, ast.Attribute) and n.attr == attr and isinstance(n.ctx, (ast.Store, ast.Del)):
                 out.append((v, n))
@@ -112,7 +125,10 @@ def name_refs_as_value(prog: Program, func: FuncInfo) -> List[Tuple[FuncInfo, as
     """Places where ``func`` is referenced without being called (passed as a callback, wrapped in partial...)."""
     out = []
     name = func.name
-    for f in prog.all_funcs():
+    cands = list(effective_funcs(prog))   # references are looked for in the analysis views (and in the local functions of those views)
+    if func.parent is not None and not any(f is func.parent for f in cands):
+        cands.append(func.parent)
+    for f in cands:
         if func.cls is None and func.parent is not None:
             # nested function: only visible in its enclosing function (and siblings)
             if f is not func.parent and f.parent is not func.parent:
@@ -615,10 +631,19 @@ def built_sequence(func: FuncInfo) -> Optional[Built]:
     if len(rets) != 1 or rets[0].value is None or not body or body[-1] is not rets[0]:
         return None
     v = strip_cast(rets[0].value)
-    while isinstance(v, ast.Call) and norm(v.func) in ('tuple', 'list') and len(v.args) == 1 and not v.keywords:
-        v = strip_cast(v.args[0])
+
+    def unwrap(x):
+        x = strip_cast(x)
+        while isinstance(x, ast.Call) and norm(x.func) in ('tuple', 'list') and len(x.args) == 1 and not x.keywords:
+            x = strip_cast(x.args[0])
+        return x
+    v = unwrap(v)
+    if isinstance(v, (ast.Tuple, ast.List)) and any(isinstance(e, (ast.Name, ast.Starred)) for e in v.elts):
+        # parts named first (``first = table[K]; rest = tuple(...); return (first, *rest)``): single-assignment locals are spelled out
+        v = Resolver(func).expand(v)
 
     def comp(c) -> Optional[Built]:
+        c = unwrap(c)
         if isinstance(c, (ast.ListComp, ast.GeneratorExp)):
             return Built([], [(g.target, g.iter, list(g.ifs)) for g in c.generators], c.elt)
         return None
@@ -806,3 +831,17 @@ def flag_lowered_on_every_exit(func: FuncInfo, attr_key: str, raised: str, lower
         for st in starts:
             ok &= cfg.must_pass(st, [cfg.exit, cfg.raise_exit], lambda m: is_set(m, lowered), edge_ok=feasible)
     return ok, len(ups)
+
+
+def setter_returns_installed_action(prog: Program) -> bool:
+    """Does ``_set_interrupt_action_from_exception`` hand back the action it has just installed?  (``x = self._set_..._from_exception(e)`` is then
+    ``self._set_..._from_exception(e); x = self._interrupt_action``.)"""
+    f = prog.try_func('processes.Process._set_interrupt_action_from_exception')
+    if f is None:
+        return False
+    res = Resolver(f)
+    rets = [r for r in ast.walk(f.node) if isinstance(r, ast.Return) and r.value is not None]
+    inst = [c for c in calls_in_func(f, '_set_interrupt_action') if c.args]
+    stores = [n for n in ast.walk(f.node) if isinstance(n, ast.Assign) and any(norm(t) == 'self._interrupt_action' for t in n.targets)]
+    installed = {res.text(c.args[0]) for c in inst} | {res.text(n.value) for n in stores}
+    return bool(rets) and len(installed) == 1 and all(res.text(r.value) in installed or norm(r.value) == 'self._interrupt_action' for r in rets)
